@@ -58,7 +58,67 @@ func (e *Engine) verifyFunction(fn *ssa.Function, fc *FuncContract) *Ctx {
 		entryEv.vars[fv.Name()] = SVal{T: "(select " + c.heapTerm(st, e.boxKey(s)) + " " + binds[k].T + ")", S: s, GT: et}
 	}
 	var objs map[string][]string
+	var kfc *FuncContract
+	if fc != nil && (fc.Implements != "" || len(fc.Defines) > 0) {
+		// closure / implementation: bind self and the names of the implemented contract
+		selfT := ""
+		if fn.Signature.Recv() != nil && len(args) > 0 {
+			selfT = args[0].T
+			entryEv.vars["self"] = SVal{T: selfT, S: "Int", GT: fn.Params[0].Type()}
+		} else {
+			selfT = c.declare("p.self", "Int")
+			c.fact("(and (< 0 " + selfT + ") (< " + selfT + " " + c.nextRef(st) + "))")
+			entryEv.vars["self"] = SVal{T: selfT, S: "Int"}
+		}
+		for _, d := range fc.Defines {
+			g, err := entryEv.evalBool(d.Expr)
+			if err != nil {
+				c.errorf("%s: define: %v", d.Where, err)
+				continue
+			}
+			c.fact(g)
+		}
+		if fc.Implements != "" {
+			kfc = e.cs.Funcs[fc.Implements]
+			if kfc == nil {
+				c.errorf("%s: implements unknown contract %s", fc.Where, fc.Implements)
+			} else {
+				names := e.contractParamNames(fc.Implements, fn)
+				off := 0
+				if fn.Signature.Recv() != nil {
+					off = 1
+				}
+				for k := off; k < len(fn.Params); k++ {
+					if k-off < len(names) {
+						entryEv.vars[names[k-off]] = SVal{T: args[k].T, S: args[k].S, GT: fn.Params[k].Type()}
+					}
+					entryEv.vars[fmt.Sprintf("arg%d", k-off)] = SVal{T: args[k].T, S: args[k].S, GT: fn.Params[k].Type()}
+				}
+				// fnparams of the implemented contract apply to the same-position parameters
+				for pn, kk := range kfc.FnParams {
+					for k, n := range names {
+						if n == pn && k+off < len(fn.Params) {
+							if fc.FnParams == nil {
+								fc.FnParams = map[string]string{}
+							}
+							fc.FnParams[fn.Params[k+off].Name()] = kk
+						}
+					}
+				}
+			}
+		}
+	}
 	if fc != nil {
+		if kfc != nil {
+			for _, rq := range kfc.Requires {
+				g, err := entryEv.evalBool(rq.Expr)
+				if err != nil {
+					c.errorf("%s: requires (implemented contract) %s: %v", rq.Where, rq.Tag(), err)
+					continue
+				}
+				c.fact(g)
+			}
+		}
 		for _, rq := range fc.Requires {
 			g, err := entryEv.evalBool(rq.Expr)
 			if err != nil {
@@ -71,7 +131,11 @@ func (e *Engine) verifyFunction(fn *ssa.Function, fc *FuncContract) *Ctx {
 			entryEv.useAxiom(u)
 		}
 		var err error
-		objs, err = entryEv.modifiesObjects(fc.Modifies)
+		mods := fc.Modifies
+		if kfc != nil {
+			mods = append(append([]*Clause{}, mods...), kfc.Modifies...)
+		}
+		objs, err = entryEv.modifiesObjects(mods)
 		if err != nil {
 			c.errorf("%s: modifies: %v", fc.Where, err)
 		}
@@ -112,6 +176,18 @@ func (e *Engine) verifyFunction(fn *ssa.Function, fc *FuncContract) *Ctx {
 				continue
 			}
 			f.oblige("ensures"+en.Tag()+suffix, en, rt.reach, g)
+		}
+		if kfc != nil {
+			short := fc.Implements[strings.Index(fc.Implements, ".")+1:]
+			for _, en := range kfc.Ensures {
+				g, err := post.evalBool(en.Expr)
+				if err != nil {
+					c.errorf("%s: ensures of %s: %v", en.Where, fc.Implements, err)
+					f.unbound("subtype["+short+"]"+en.Tag()+suffix, en, err)
+					continue
+				}
+				f.oblige("subtype["+short+"]"+en.Tag()+suffix, en, rt.reach, g)
+			}
 		}
 		// frame: every heap key that changed must respect the modifies clause
 		var keys []string
